@@ -1673,6 +1673,9 @@ func (s *BgpServer) handleFSMMessage(peer *peer, e *fsmMsg) {
 				peer.fsm.lock.Unlock()
 
 				gracefulFamilies, dropFamilies = peer.forwardingPreservedFamilies()
+				// RFC 4724 4.2: to deal with consecutive restarts, a route previously
+				// marked as stale MUST be deleted.
+				s.propagateUpdate(peer, peer.adjRibIn.DropStale(gracefulFamilies))
 				s.propagateUpdate(peer, peer.StaleAll(gracefulFamilies))
 			} else {
 				dropFamilies = peer.configuredRFlist()
